@@ -1364,13 +1364,19 @@ pub fn check_c18(tier: Tier) -> i32 {
     }
   }
   let ns_light: Vec<usize> = ns.clone();
+  let ns_dense: Vec<usize> = (0..=4 * cap as usize).filter(|n| n % 64 <= 1 || (*n >= 38 && *n <= 49) || (*n >= 126 && *n <= 130)).collect();
   // work items (cell, start state), spread over single-threaded child processes (every case re-maps memory: see shard.rs)
   let work: Vec<(usize, usize)> = (0..cells.len()).flat_map(|ci| (0..4).map(move |st| (ci, st))).collect();
   if crate::shard::child().is_some() {
     let work: Vec<(usize, usize)> = work.into_iter().enumerate().filter(|(i, _)| crate::shard::mine(*i)).map(|(_, w)| w).collect();
     par_for_each(&work, |_, &(ci, st)| {
       let c = &cells[ci];
-      c18_cell(&run, c, &alphabet, if thorough { 3 } else { 2 }, if c.file_offset > 0 || c.reserved > 0 { &ns_light } else { &ns }, st)
+      // quick: depth 3 over the boundary-dense size grid; thorough: depth 3 over every size, and depth 4 over the
+      // boundary-dense grid on the plain cells
+      c18_cell(&run, c, &alphabet, 3, if c.file_offset > 0 || c.reserved > 0 { &ns_light } else { &ns }, st);
+      if thorough && c.file_offset == 0 && c.reserved == 0 {
+        c18_cell(&run, c, &alphabet, 4, &ns_dense, st);
+      }
     });
     return crate::shard::finish_child(&run);
   }
@@ -1415,8 +1421,8 @@ pub fn check_c18(tier: Tier) -> i32 {
       viol(&run, "C18", "after-truncate:alignment", m, case.clone());
     }
   }
-  run.rule("truncate(n) for n over the stated grid after every history of the stated depth from 4 start states x 18 configuration cells (3 free-list kinds x Vec/anon plain+unified, file, file at offset 4096); after each truncate four follow-up allocations under the shadow, policy, zero-fill and error-state oracles; read-only arenas must refuse; evaluations = truncate calls");
-  run.set("bounds", json!({"n_values": ns.len(), "n_max": 4 * cap, "history_depth": if thorough { 3 } else { 2 }}));
+  run.rule("truncate(n) for n over the stated grid after every history of the stated depth from 4 start states x 22 configuration cells (3 free-list kinds x Vec/anon plain+unified, file, file at offset 4096, cells with a reserved prefix), histories of depth 3 (thorough: every size 0..=4*capacity, plus depth 4 on the plain cells); after each truncate four follow-up allocations under the shadow, policy, zero-fill and error-state oracles; read-only arenas must refuse; evaluations = truncate calls");
+  run.set("bounds", json!({"n_values": ns.len(), "n_max": 4 * cap, "history_depth": 3, "thorough_extra": "depth 4 on the plain cells over a boundary-dense size grid"}));
   run.finish()
 }
 
